@@ -29,11 +29,16 @@ import (
 	"pgregory.net/rapid"
 )
 
-// fpTomb: a tombstone that lived on an evacuated shard only is moved to ONE
-// remaining shard (HRW by the tombstone's ID) although Put broadcasts
-// tombstones; its target, still stored on another remaining shard that missed
-// the tombstone, was reported removed before and is served again afterwards.
-const fpTomb = "C19:tombstone-evacuated-to-single-shard"
+// fpTomb: shards disagreed about an object before the evacuation (one knows
+// its tombstone, another still stores it as available; engine reads said
+// "already removed" because the shard with the tombstone came first in HRW
+// order) and although all remaining shards are healthy the object is served
+// again afterwards: (a) the tombstone lived on an evacuated shard and is moved
+// to ONE remaining shard (HRW by the tombstone's ID; Put broadcasts
+// tombstones) – not the one holding the target; (b) the still-available copy
+// lived on an evacuated shard and is copied to a remaining shard that lacks
+// the tombstone (a target answering "already removed" is just skipped).
+const fpTomb = "C19:removed-object-served-again-after-evacuation"
 
 const (
 	cnr    = 0
@@ -149,10 +154,20 @@ func gen(t *rapid.T) kase {
 	}
 	k.AddOrder = rapid.Permutation(idx).Draw(t, "addorder")
 	k.Objs = specs(t)
-	storable := []int{0, 1, 2, idSp1, idSp2, idLink, idEC0, idEC1, idA0, idA1, idA0, idA1}
-	np := rapid.IntRange(4, 14).Draw(t, "nputs")
-	for i := 0; i < np; i++ {
-		k.Puts = append(k.Puts, putOp{ID: rapid.SampledFrom(storable).Draw(t, "put"), Fail: subset(t, k.N, "putfail", 5)})
+	// phase 1: data objects (some shards failing now and then, so objects land
+	// off their first HRW shard); phase 2: locks/tombstones, mostly with failing
+	// shards (partially present system objects); phase 3: a few more puts.
+	data := []int{0, 1, 2, idSp1, idSp2, idLink, idEC0, idEC1}
+	for _, id := range rapid.Permutation(data).Draw(t, "dataorder") {
+		if rapid.IntRange(0, 9).Draw(t, "putdata") < 7 {
+			k.Puts = append(k.Puts, putOp{ID: id, Fail: subset(t, k.N, "putfail", 3)})
+		}
+	}
+	for i, n := 0, rapid.IntRange(1, 4).Draw(t, "nassoc"); i < n; i++ {
+		k.Puts = append(k.Puts, putOp{ID: rapid.SampledFrom([]int{idA0, idA1}).Draw(t, "assoc"), Fail: subset(t, k.N, "assocfail", 7)})
+	}
+	for i, n := 0, rapid.IntRange(0, 3).Draw(t, "nmore"); i < n; i++ {
+		k.Puts = append(k.Puts, putOp{ID: rapid.SampledFrom(append(data, idA0, idA1)).Draw(t, "more"), Fail: subset(t, k.N, "putfail", 3)})
 	}
 	// sources: non-empty; proper subset unless a fault handler is given
 	k.FH = rapid.IntRange(0, 3).Draw(t, "fh") == 0
@@ -294,6 +309,12 @@ func run(t *rapid.T, rec *ev.Recorder, k kase) (labels []string, nontrivial bool
 		}
 		divergent[i] = anyOK && anyRemoved
 	}
+	directTarget := make([]bool, nIDs)
+	for _, id := range []int{idA0, idA1} {
+		if k.Objs[id].Kind == uni.Tombstone && before[id].cls == engx.OK {
+			directTarget[k.Objs[id].Target] = true
+		}
+	}
 	var srcDirs []string
 	for _, s := range k.Sources {
 		srcDirs = append(srcDirs, e.Sh[s].Dir)
@@ -402,7 +423,15 @@ func run(t *rapid.T, rec *ev.Recorder, k kase) (labels []string, nontrivial bool
 		case divergent[i]:
 			// shards disagreed before: the only demand is that a removed object does not come back
 			if b.cls == engx.Removed && a.cls == engx.OK {
-				if rec.Known(fpTomb) {
+				// Demanded only where an evacuation could have kept the status without
+				// failing: every remaining shard was writable during Evacuate.
+				satisfiable := true
+				for _, s := range remaining {
+					satisfiable = satisfiable && k.Targets[s] == "rw"
+				}
+				if !satisfiable {
+					lab["removed-reappears-some-target-not-writable(not-asserted)"] = true
+				} else if rec.Known(fpTomb) {
 					rec.Excluded(1)
 					lab["known:"+fpTomb] = true
 				} else {
@@ -423,7 +452,11 @@ func run(t *rapid.T, rec *ev.Recorder, k kase) (labels []string, nontrivial bool
 					failf("parent object status changed: %s", desc)
 				}
 			case engx.Removed:
-				if a.cls != engx.Removed {
+				// The direct target of a stored tombstone must stay "already removed";
+				// objects removed through their parent may become "not found" when the
+				// (inhumed, hence not evacuated) child that linked them to the parent
+				// lived on an evacuated shard – unavailable either way.
+				if a.cls != engx.Removed && (directTarget[i] || a.cls != engx.NotFound) {
 					failf("removal status changed: %s", desc)
 				}
 			case engx.NotFound:
